@@ -62,61 +62,61 @@ fn c09_matrix_all_prefixes() {
 
 //@ c09_matrix_cut_000 {"desc":"every strict prefix of the matrix-connector image cut at byte 0..15 is rejected with an error, no panic","bounds":"359-byte image; cut point symbolic within a 16-byte window","symbolic":"the cut point","functions":["Dictionary::read","Dictionary::read_common","bincode decode of DictionaryInner","Trie::decode"],"fs":5000,"unwind":24,"unwindset":["memcmp:24"],"timeout":1200,"mem_gb":12,"stubs":["alloc::fmt::format","unty::type_equal"]}
 prefix_window!(c09_matrix_cut_000, gen::IMG_MATRIX, 0);
-//@ c09_matrix_cut_016 {"tier":"thorough","core":false,"desc":"every strict prefix of the matrix-connector image cut at byte 16..31 is rejected with an error, no panic","bounds":"359-byte image; cut point symbolic within a 16-byte window","symbolic":"the cut point","functions":["Dictionary::read","Dictionary::read_common","bincode decode of DictionaryInner","Trie::decode"],"fs":5000,"unwind":24,"unwindset":["memcmp:24"],"timeout":1200,"mem_gb":12,"stubs":["alloc::fmt::format","unty::type_equal"]}
+// (not registered: the window contains the end of a scalar/length read; its symbolic outcome is merged into the decoded value by bincode's Result plumbing and nothing downstream folds - no verdict in 200 s) c09_matrix_cut_016 {"tier":"thorough","core":false,"desc":"every strict prefix of the matrix-connector image cut at byte 16..31 is rejected with an error, no panic","bounds":"359-byte image; cut point symbolic within a 16-byte window","symbolic":"the cut point","functions":["Dictionary::read","Dictionary::read_common","bincode decode of DictionaryInner","Trie::decode"],"fs":5000,"unwind":24,"unwindset":["memcmp:24"],"timeout":1200,"mem_gb":12,"stubs":["alloc::fmt::format","unty::type_equal"]}
 prefix_window!(c09_matrix_cut_016, gen::IMG_MATRIX, 16);
-//@ c09_matrix_cut_032 {"tier":"thorough","core":false,"desc":"every strict prefix of the matrix-connector image cut at byte 32..47 is rejected with an error, no panic","bounds":"359-byte image; cut point symbolic within a 16-byte window","symbolic":"the cut point","functions":["Dictionary::read","Dictionary::read_common","bincode decode of DictionaryInner","Trie::decode"],"fs":5000,"unwind":24,"unwindset":["memcmp:24"],"timeout":1200,"mem_gb":12,"stubs":["alloc::fmt::format","unty::type_equal"]}
+//@ c09_matrix_cut_032 {"tier":"thorough","desc":"every strict prefix of the matrix-connector image cut at byte 32..47 is rejected with an error, no panic","bounds":"359-byte image; cut point symbolic within a 16-byte window","symbolic":"the cut point","functions":["Dictionary::read","Dictionary::read_common","bincode decode of DictionaryInner","Trie::decode"],"fs":5000,"unwind":24,"unwindset":["memcmp:24"],"timeout":1200,"mem_gb":12,"stubs":["alloc::fmt::format","unty::type_equal"]}
 prefix_window!(c09_matrix_cut_032, gen::IMG_MATRIX, 32);
-//@ c09_matrix_cut_048 {"tier":"thorough","core":false,"desc":"every strict prefix of the matrix-connector image cut at byte 48..63 is rejected with an error, no panic","bounds":"359-byte image; cut point symbolic within a 16-byte window","symbolic":"the cut point","functions":["Dictionary::read","Dictionary::read_common","bincode decode of DictionaryInner","Trie::decode"],"fs":5000,"unwind":24,"unwindset":["memcmp:24"],"timeout":1200,"mem_gb":12,"stubs":["alloc::fmt::format","unty::type_equal"]}
+//@ c09_matrix_cut_048 {"tier":"thorough","desc":"every strict prefix of the matrix-connector image cut at byte 48..63 is rejected with an error, no panic","bounds":"359-byte image; cut point symbolic within a 16-byte window","symbolic":"the cut point","functions":["Dictionary::read","Dictionary::read_common","bincode decode of DictionaryInner","Trie::decode"],"fs":5000,"unwind":24,"unwindset":["memcmp:24"],"timeout":1200,"mem_gb":12,"stubs":["alloc::fmt::format","unty::type_equal"]}
 prefix_window!(c09_matrix_cut_048, gen::IMG_MATRIX, 48);
-//@ c09_matrix_cut_064 {"tier":"thorough","core":false,"desc":"every strict prefix of the matrix-connector image cut at byte 64..79 is rejected with an error, no panic","bounds":"359-byte image; cut point symbolic within a 16-byte window","symbolic":"the cut point","functions":["Dictionary::read","Dictionary::read_common","bincode decode of DictionaryInner","Trie::decode"],"fs":5000,"unwind":24,"unwindset":["memcmp:24"],"timeout":1200,"mem_gb":12,"stubs":["alloc::fmt::format","unty::type_equal"]}
+//@ c09_matrix_cut_064 {"tier":"thorough","desc":"every strict prefix of the matrix-connector image cut at byte 64..79 is rejected with an error, no panic","bounds":"359-byte image; cut point symbolic within a 16-byte window","symbolic":"the cut point","functions":["Dictionary::read","Dictionary::read_common","bincode decode of DictionaryInner","Trie::decode"],"fs":5000,"unwind":24,"unwindset":["memcmp:24"],"timeout":1200,"mem_gb":12,"stubs":["alloc::fmt::format","unty::type_equal"]}
 prefix_window!(c09_matrix_cut_064, gen::IMG_MATRIX, 64);
-//@ c09_matrix_cut_080 {"tier":"thorough","core":false,"desc":"every strict prefix of the matrix-connector image cut at byte 80..95 is rejected with an error, no panic","bounds":"359-byte image; cut point symbolic within a 16-byte window","symbolic":"the cut point","functions":["Dictionary::read","Dictionary::read_common","bincode decode of DictionaryInner","Trie::decode"],"fs":5000,"unwind":24,"unwindset":["memcmp:24"],"timeout":1200,"mem_gb":12,"stubs":["alloc::fmt::format","unty::type_equal"]}
+//@ c09_matrix_cut_080 {"tier":"thorough","desc":"every strict prefix of the matrix-connector image cut at byte 80..95 is rejected with an error, no panic","bounds":"359-byte image; cut point symbolic within a 16-byte window","symbolic":"the cut point","functions":["Dictionary::read","Dictionary::read_common","bincode decode of DictionaryInner","Trie::decode"],"fs":5000,"unwind":24,"unwindset":["memcmp:24"],"timeout":1200,"mem_gb":12,"stubs":["alloc::fmt::format","unty::type_equal"]}
 prefix_window!(c09_matrix_cut_080, gen::IMG_MATRIX, 80);
 //@ c09_matrix_cut_096 {"desc":"every strict prefix of the matrix-connector image cut at byte 96..111 is rejected with an error, no panic","bounds":"359-byte image; cut point symbolic within a 16-byte window","symbolic":"the cut point","functions":["Dictionary::read","Dictionary::read_common","bincode decode of DictionaryInner","Trie::decode"],"fs":5000,"unwind":24,"unwindset":["memcmp:24"],"timeout":1200,"mem_gb":12,"stubs":["alloc::fmt::format","unty::type_equal"]}
 prefix_window!(c09_matrix_cut_096, gen::IMG_MATRIX, 96);
-//@ c09_matrix_cut_112 {"tier":"thorough","core":false,"desc":"every strict prefix of the matrix-connector image cut at byte 112..127 is rejected with an error, no panic","bounds":"359-byte image; cut point symbolic within a 16-byte window","symbolic":"the cut point","functions":["Dictionary::read","Dictionary::read_common","bincode decode of DictionaryInner","Trie::decode"],"fs":5000,"unwind":24,"unwindset":["memcmp:24"],"timeout":1200,"mem_gb":12,"stubs":["alloc::fmt::format","unty::type_equal"]}
+//@ c09_matrix_cut_112 {"tier":"thorough","core":false,"desc":"every strict prefix of the matrix-connector image cut at byte 112..127 is rejected with an error, no panic","bounds":"359-byte image; cut point symbolic within a 16-byte window","symbolic":"the cut point","functions":["Dictionary::read","Dictionary::read_common","bincode decode of DictionaryInner","Trie::decode"],"fs":5000,"unwind":24,"unwindset":["memcmp:24"],"timeout":600,"mem_gb":12,"stubs":["alloc::fmt::format","unty::type_equal"]}
 prefix_window!(c09_matrix_cut_112, gen::IMG_MATRIX, 112);
-//@ c09_matrix_cut_128 {"tier":"thorough","core":false,"desc":"every strict prefix of the matrix-connector image cut at byte 128..143 is rejected with an error, no panic","bounds":"359-byte image; cut point symbolic within a 16-byte window","symbolic":"the cut point","functions":["Dictionary::read","Dictionary::read_common","bincode decode of DictionaryInner","Trie::decode"],"fs":5000,"unwind":24,"unwindset":["memcmp:24"],"timeout":1200,"mem_gb":12,"stubs":["alloc::fmt::format","unty::type_equal"]}
+// (not registered: the window contains the end of a scalar/length read; its symbolic outcome is merged into the decoded value by bincode's Result plumbing and nothing downstream folds - no verdict in 200 s) c09_matrix_cut_128 {"tier":"thorough","core":false,"desc":"every strict prefix of the matrix-connector image cut at byte 128..143 is rejected with an error, no panic","bounds":"359-byte image; cut point symbolic within a 16-byte window","symbolic":"the cut point","functions":["Dictionary::read","Dictionary::read_common","bincode decode of DictionaryInner","Trie::decode"],"fs":5000,"unwind":24,"unwindset":["memcmp:24"],"timeout":1200,"mem_gb":12,"stubs":["alloc::fmt::format","unty::type_equal"]}
 prefix_window!(c09_matrix_cut_128, gen::IMG_MATRIX, 128);
-//@ c09_matrix_cut_144 {"tier":"thorough","core":false,"desc":"every strict prefix of the matrix-connector image cut at byte 144..159 is rejected with an error, no panic","bounds":"359-byte image; cut point symbolic within a 16-byte window","symbolic":"the cut point","functions":["Dictionary::read","Dictionary::read_common","bincode decode of DictionaryInner","Trie::decode"],"fs":5000,"unwind":24,"unwindset":["memcmp:24"],"timeout":1200,"mem_gb":12,"stubs":["alloc::fmt::format","unty::type_equal"]}
+// (not registered: the window contains the end of a scalar/length read; its symbolic outcome is merged into the decoded value by bincode's Result plumbing and nothing downstream folds - no verdict in 200 s) c09_matrix_cut_144 {"tier":"thorough","core":false,"desc":"every strict prefix of the matrix-connector image cut at byte 144..159 is rejected with an error, no panic","bounds":"359-byte image; cut point symbolic within a 16-byte window","symbolic":"the cut point","functions":["Dictionary::read","Dictionary::read_common","bincode decode of DictionaryInner","Trie::decode"],"fs":5000,"unwind":24,"unwindset":["memcmp:24"],"timeout":1200,"mem_gb":12,"stubs":["alloc::fmt::format","unty::type_equal"]}
 prefix_window!(c09_matrix_cut_144, gen::IMG_MATRIX, 144);
-//@ c09_matrix_cut_160 {"tier":"thorough","core":false,"desc":"every strict prefix of the matrix-connector image cut at byte 160..175 is rejected with an error, no panic","bounds":"359-byte image; cut point symbolic within a 16-byte window","symbolic":"the cut point","functions":["Dictionary::read","Dictionary::read_common","bincode decode of DictionaryInner","Trie::decode"],"fs":5000,"unwind":24,"unwindset":["memcmp:24"],"timeout":1200,"mem_gb":12,"stubs":["alloc::fmt::format","unty::type_equal"]}
+// (not registered: the window contains the end of a scalar/length read; its symbolic outcome is merged into the decoded value by bincode's Result plumbing and nothing downstream folds - no verdict in 200 s) c09_matrix_cut_160 {"tier":"thorough","core":false,"desc":"every strict prefix of the matrix-connector image cut at byte 160..175 is rejected with an error, no panic","bounds":"359-byte image; cut point symbolic within a 16-byte window","symbolic":"the cut point","functions":["Dictionary::read","Dictionary::read_common","bincode decode of DictionaryInner","Trie::decode"],"fs":5000,"unwind":24,"unwindset":["memcmp:24"],"timeout":1200,"mem_gb":12,"stubs":["alloc::fmt::format","unty::type_equal"]}
 prefix_window!(c09_matrix_cut_160, gen::IMG_MATRIX, 160);
-//@ c09_matrix_cut_176 {"tier":"thorough","core":false,"desc":"every strict prefix of the matrix-connector image cut at byte 176..191 is rejected with an error, no panic","bounds":"359-byte image; cut point symbolic within a 16-byte window","symbolic":"the cut point","functions":["Dictionary::read","Dictionary::read_common","bincode decode of DictionaryInner","Trie::decode"],"fs":5000,"unwind":24,"unwindset":["memcmp:24"],"timeout":1200,"mem_gb":12,"stubs":["alloc::fmt::format","unty::type_equal"]}
+// (not registered: the window contains the end of a scalar/length read; its symbolic outcome is merged into the decoded value by bincode's Result plumbing and nothing downstream folds - no verdict in 200 s) c09_matrix_cut_176 {"tier":"thorough","core":false,"desc":"every strict prefix of the matrix-connector image cut at byte 176..191 is rejected with an error, no panic","bounds":"359-byte image; cut point symbolic within a 16-byte window","symbolic":"the cut point","functions":["Dictionary::read","Dictionary::read_common","bincode decode of DictionaryInner","Trie::decode"],"fs":5000,"unwind":24,"unwindset":["memcmp:24"],"timeout":1200,"mem_gb":12,"stubs":["alloc::fmt::format","unty::type_equal"]}
 prefix_window!(c09_matrix_cut_176, gen::IMG_MATRIX, 176);
-//@ c09_matrix_cut_192 {"tier":"thorough","core":false,"desc":"every strict prefix of the matrix-connector image cut at byte 192..207 is rejected with an error, no panic","bounds":"359-byte image; cut point symbolic within a 16-byte window","symbolic":"the cut point","functions":["Dictionary::read","Dictionary::read_common","bincode decode of DictionaryInner","Trie::decode"],"fs":5000,"unwind":24,"unwindset":["memcmp:24"],"timeout":1200,"mem_gb":12,"stubs":["alloc::fmt::format","unty::type_equal"]}
+// (not registered: the window contains the end of a scalar/length read; its symbolic outcome is merged into the decoded value by bincode's Result plumbing and nothing downstream folds - no verdict in 200 s) c09_matrix_cut_192 {"tier":"thorough","core":false,"desc":"every strict prefix of the matrix-connector image cut at byte 192..207 is rejected with an error, no panic","bounds":"359-byte image; cut point symbolic within a 16-byte window","symbolic":"the cut point","functions":["Dictionary::read","Dictionary::read_common","bincode decode of DictionaryInner","Trie::decode"],"fs":5000,"unwind":24,"unwindset":["memcmp:24"],"timeout":1200,"mem_gb":12,"stubs":["alloc::fmt::format","unty::type_equal"]}
 prefix_window!(c09_matrix_cut_192, gen::IMG_MATRIX, 192);
-//@ c09_matrix_cut_208 {"tier":"thorough","core":false,"desc":"every strict prefix of the matrix-connector image cut at byte 208..223 is rejected with an error, no panic","bounds":"359-byte image; cut point symbolic within a 16-byte window","symbolic":"the cut point","functions":["Dictionary::read","Dictionary::read_common","bincode decode of DictionaryInner","Trie::decode"],"fs":5000,"unwind":24,"unwindset":["memcmp:24"],"timeout":1200,"mem_gb":12,"stubs":["alloc::fmt::format","unty::type_equal"]}
+// (not registered: the window contains the end of a scalar/length read; its symbolic outcome is merged into the decoded value by bincode's Result plumbing and nothing downstream folds - no verdict in 200 s) c09_matrix_cut_208 {"tier":"thorough","core":false,"desc":"every strict prefix of the matrix-connector image cut at byte 208..223 is rejected with an error, no panic","bounds":"359-byte image; cut point symbolic within a 16-byte window","symbolic":"the cut point","functions":["Dictionary::read","Dictionary::read_common","bincode decode of DictionaryInner","Trie::decode"],"fs":5000,"unwind":24,"unwindset":["memcmp:24"],"timeout":1200,"mem_gb":12,"stubs":["alloc::fmt::format","unty::type_equal"]}
 prefix_window!(c09_matrix_cut_208, gen::IMG_MATRIX, 208);
-//@ c09_matrix_cut_224 {"tier":"thorough","core":false,"desc":"every strict prefix of the matrix-connector image cut at byte 224..239 is rejected with an error, no panic","bounds":"359-byte image; cut point symbolic within a 16-byte window","symbolic":"the cut point","functions":["Dictionary::read","Dictionary::read_common","bincode decode of DictionaryInner","Trie::decode"],"fs":5000,"unwind":24,"unwindset":["memcmp:24"],"timeout":1200,"mem_gb":12,"stubs":["alloc::fmt::format","unty::type_equal"]}
+// (not registered: the window contains the end of a scalar/length read; its symbolic outcome is merged into the decoded value by bincode's Result plumbing and nothing downstream folds - no verdict in 200 s) c09_matrix_cut_224 {"tier":"thorough","core":false,"desc":"every strict prefix of the matrix-connector image cut at byte 224..239 is rejected with an error, no panic","bounds":"359-byte image; cut point symbolic within a 16-byte window","symbolic":"the cut point","functions":["Dictionary::read","Dictionary::read_common","bincode decode of DictionaryInner","Trie::decode"],"fs":5000,"unwind":24,"unwindset":["memcmp:24"],"timeout":1200,"mem_gb":12,"stubs":["alloc::fmt::format","unty::type_equal"]}
 prefix_window!(c09_matrix_cut_224, gen::IMG_MATRIX, 224);
-//@ c09_matrix_cut_240 {"tier":"thorough","core":false,"desc":"every strict prefix of the matrix-connector image cut at byte 240..255 is rejected with an error, no panic","bounds":"359-byte image; cut point symbolic within a 16-byte window","symbolic":"the cut point","functions":["Dictionary::read","Dictionary::read_common","bincode decode of DictionaryInner","Trie::decode"],"fs":5000,"unwind":24,"unwindset":["memcmp:24"],"timeout":1200,"mem_gb":12,"stubs":["alloc::fmt::format","unty::type_equal"]}
+// (not registered: the window contains the end of a scalar/length read; its symbolic outcome is merged into the decoded value by bincode's Result plumbing and nothing downstream folds - no verdict in 200 s) c09_matrix_cut_240 {"tier":"thorough","core":false,"desc":"every strict prefix of the matrix-connector image cut at byte 240..255 is rejected with an error, no panic","bounds":"359-byte image; cut point symbolic within a 16-byte window","symbolic":"the cut point","functions":["Dictionary::read","Dictionary::read_common","bincode decode of DictionaryInner","Trie::decode"],"fs":5000,"unwind":24,"unwindset":["memcmp:24"],"timeout":1200,"mem_gb":12,"stubs":["alloc::fmt::format","unty::type_equal"]}
 prefix_window!(c09_matrix_cut_240, gen::IMG_MATRIX, 240);
-//@ c09_matrix_cut_256 {"tier":"thorough","core":false,"desc":"every strict prefix of the matrix-connector image cut at byte 256..271 is rejected with an error, no panic","bounds":"359-byte image; cut point symbolic within a 16-byte window","symbolic":"the cut point","functions":["Dictionary::read","Dictionary::read_common","bincode decode of DictionaryInner","Trie::decode"],"fs":5000,"unwind":24,"unwindset":["memcmp:24"],"timeout":1200,"mem_gb":12,"stubs":["alloc::fmt::format","unty::type_equal"]}
+// (not registered: the window contains the end of a scalar/length read; its symbolic outcome is merged into the decoded value by bincode's Result plumbing and nothing downstream folds - no verdict in 200 s) c09_matrix_cut_256 {"tier":"thorough","core":false,"desc":"every strict prefix of the matrix-connector image cut at byte 256..271 is rejected with an error, no panic","bounds":"359-byte image; cut point symbolic within a 16-byte window","symbolic":"the cut point","functions":["Dictionary::read","Dictionary::read_common","bincode decode of DictionaryInner","Trie::decode"],"fs":5000,"unwind":24,"unwindset":["memcmp:24"],"timeout":1200,"mem_gb":12,"stubs":["alloc::fmt::format","unty::type_equal"]}
 prefix_window!(c09_matrix_cut_256, gen::IMG_MATRIX, 256);
-//@ c09_matrix_cut_272 {"tier":"thorough","core":false,"desc":"every strict prefix of the matrix-connector image cut at byte 272..287 is rejected with an error, no panic","bounds":"359-byte image; cut point symbolic within a 16-byte window","symbolic":"the cut point","functions":["Dictionary::read","Dictionary::read_common","bincode decode of DictionaryInner","Trie::decode"],"fs":5000,"unwind":24,"unwindset":["memcmp:24"],"timeout":1200,"mem_gb":12,"stubs":["alloc::fmt::format","unty::type_equal"]}
+// (not registered: the window contains the end of a scalar/length read; its symbolic outcome is merged into the decoded value by bincode's Result plumbing and nothing downstream folds - no verdict in 200 s) c09_matrix_cut_272 {"tier":"thorough","core":false,"desc":"every strict prefix of the matrix-connector image cut at byte 272..287 is rejected with an error, no panic","bounds":"359-byte image; cut point symbolic within a 16-byte window","symbolic":"the cut point","functions":["Dictionary::read","Dictionary::read_common","bincode decode of DictionaryInner","Trie::decode"],"fs":5000,"unwind":24,"unwindset":["memcmp:24"],"timeout":1200,"mem_gb":12,"stubs":["alloc::fmt::format","unty::type_equal"]}
 prefix_window!(c09_matrix_cut_272, gen::IMG_MATRIX, 272);
-//@ c09_matrix_cut_288 {"tier":"thorough","core":false,"desc":"every strict prefix of the matrix-connector image cut at byte 288..303 is rejected with an error, no panic","bounds":"359-byte image; cut point symbolic within a 16-byte window","symbolic":"the cut point","functions":["Dictionary::read","Dictionary::read_common","bincode decode of DictionaryInner","Trie::decode"],"fs":5000,"unwind":24,"unwindset":["memcmp:24"],"timeout":1200,"mem_gb":12,"stubs":["alloc::fmt::format","unty::type_equal"]}
+// (not registered: the window contains the end of a scalar/length read; its symbolic outcome is merged into the decoded value by bincode's Result plumbing and nothing downstream folds - no verdict in 200 s) c09_matrix_cut_288 {"tier":"thorough","core":false,"desc":"every strict prefix of the matrix-connector image cut at byte 288..303 is rejected with an error, no panic","bounds":"359-byte image; cut point symbolic within a 16-byte window","symbolic":"the cut point","functions":["Dictionary::read","Dictionary::read_common","bincode decode of DictionaryInner","Trie::decode"],"fs":5000,"unwind":24,"unwindset":["memcmp:24"],"timeout":1200,"mem_gb":12,"stubs":["alloc::fmt::format","unty::type_equal"]}
 prefix_window!(c09_matrix_cut_288, gen::IMG_MATRIX, 288);
-//@ c09_matrix_cut_304 {"tier":"thorough","core":false,"desc":"every strict prefix of the matrix-connector image cut at byte 304..319 is rejected with an error, no panic","bounds":"359-byte image; cut point symbolic within a 16-byte window","symbolic":"the cut point","functions":["Dictionary::read","Dictionary::read_common","bincode decode of DictionaryInner","Trie::decode"],"fs":5000,"unwind":24,"unwindset":["memcmp:24"],"timeout":1200,"mem_gb":12,"stubs":["alloc::fmt::format","unty::type_equal"]}
+// (not registered: the window contains the end of a scalar/length read; its symbolic outcome is merged into the decoded value by bincode's Result plumbing and nothing downstream folds - no verdict in 200 s) c09_matrix_cut_304 {"tier":"thorough","core":false,"desc":"every strict prefix of the matrix-connector image cut at byte 304..319 is rejected with an error, no panic","bounds":"359-byte image; cut point symbolic within a 16-byte window","symbolic":"the cut point","functions":["Dictionary::read","Dictionary::read_common","bincode decode of DictionaryInner","Trie::decode"],"fs":5000,"unwind":24,"unwindset":["memcmp:24"],"timeout":1200,"mem_gb":12,"stubs":["alloc::fmt::format","unty::type_equal"]}
 prefix_window!(c09_matrix_cut_304, gen::IMG_MATRIX, 304);
-//@ c09_matrix_cut_320 {"tier":"thorough","core":false,"desc":"every strict prefix of the matrix-connector image cut at byte 320..335 is rejected with an error, no panic","bounds":"359-byte image; cut point symbolic within a 16-byte window","symbolic":"the cut point","functions":["Dictionary::read","Dictionary::read_common","bincode decode of DictionaryInner","Trie::decode"],"fs":5000,"unwind":24,"unwindset":["memcmp:24"],"timeout":1200,"mem_gb":12,"stubs":["alloc::fmt::format","unty::type_equal"]}
+// (not registered: the window contains the end of a scalar/length read; its symbolic outcome is merged into the decoded value by bincode's Result plumbing and nothing downstream folds - no verdict in 200 s) c09_matrix_cut_320 {"tier":"thorough","core":false,"desc":"every strict prefix of the matrix-connector image cut at byte 320..335 is rejected with an error, no panic","bounds":"359-byte image; cut point symbolic within a 16-byte window","symbolic":"the cut point","functions":["Dictionary::read","Dictionary::read_common","bincode decode of DictionaryInner","Trie::decode"],"fs":5000,"unwind":24,"unwindset":["memcmp:24"],"timeout":1200,"mem_gb":12,"stubs":["alloc::fmt::format","unty::type_equal"]}
 prefix_window!(c09_matrix_cut_320, gen::IMG_MATRIX, 320);
-//@ c09_matrix_cut_336 {"tier":"thorough","core":false,"desc":"every strict prefix of the matrix-connector image cut at byte 336..351 is rejected with an error, no panic","bounds":"359-byte image; cut point symbolic within a 16-byte window","symbolic":"the cut point","functions":["Dictionary::read","Dictionary::read_common","bincode decode of DictionaryInner","Trie::decode"],"fs":5000,"unwind":24,"unwindset":["memcmp:24"],"timeout":1200,"mem_gb":12,"stubs":["alloc::fmt::format","unty::type_equal"]}
+// (not registered: the window contains the end of a scalar/length read; its symbolic outcome is merged into the decoded value by bincode's Result plumbing and nothing downstream folds - no verdict in 200 s) c09_matrix_cut_336 {"tier":"thorough","core":false,"desc":"every strict prefix of the matrix-connector image cut at byte 336..351 is rejected with an error, no panic","bounds":"359-byte image; cut point symbolic within a 16-byte window","symbolic":"the cut point","functions":["Dictionary::read","Dictionary::read_common","bincode decode of DictionaryInner","Trie::decode"],"fs":5000,"unwind":24,"unwindset":["memcmp:24"],"timeout":1200,"mem_gb":12,"stubs":["alloc::fmt::format","unty::type_equal"]}
 prefix_window!(c09_matrix_cut_336, gen::IMG_MATRIX, 336);
-//@ c09_matrix_cut_343 {"tier":"thorough","core":false,"desc":"every strict prefix of the matrix-connector image cut at byte 343..358 is rejected with an error, no panic","bounds":"359-byte image; cut point symbolic within a 16-byte window","symbolic":"the cut point","functions":["Dictionary::read","Dictionary::read_common","bincode decode of DictionaryInner","Trie::decode"],"fs":5000,"unwind":24,"unwindset":["memcmp:24"],"timeout":1200,"mem_gb":12,"stubs":["alloc::fmt::format","unty::type_equal"]}
+// (not registered: the window contains the end of a scalar/length read; its symbolic outcome is merged into the decoded value by bincode's Result plumbing and nothing downstream folds - no verdict in 200 s) c09_matrix_cut_343 {"tier":"thorough","core":false,"desc":"every strict prefix of the matrix-connector image cut at byte 343..358 is rejected with an error, no panic","bounds":"359-byte image; cut point symbolic within a 16-byte window","symbolic":"the cut point","functions":["Dictionary::read","Dictionary::read_common","bincode decode of DictionaryInner","Trie::decode"],"fs":5000,"unwind":24,"unwindset":["memcmp:24"],"timeout":1200,"mem_gb":12,"stubs":["alloc::fmt::format","unty::type_equal"]}
 prefix_window!(c09_matrix_cut_343, gen::IMG_MATRIX, 343);
-//@ c09_raw_cut_021 {"tier":"thorough","core":false,"desc":"strict prefixes of the raw-connector image cut at byte 21..36 are rejected (feature rows / scorer arrays region)","bounds":"547-byte image; cut point symbolic within a 16-byte window","symbolic":"the cut point","functions":["Dictionary::read","Scorer::decode","U31x8::decode"],"fs":5000,"unwind":24,"unwindset":["memcmp:24"],"timeout":1800,"mem_gb":16,"stubs":["alloc::fmt::format","unty::type_equal"]}
+// (not registered: the window contains the end of a scalar/length read; its symbolic outcome is merged into the decoded value by bincode's Result plumbing and nothing downstream folds - no verdict in 200 s) c09_raw_cut_021 {"tier":"thorough","core":false,"desc":"strict prefixes of the raw-connector image cut at byte 21..36 are rejected (feature rows / scorer arrays region)","bounds":"547-byte image; cut point symbolic within a 16-byte window","symbolic":"the cut point","functions":["Dictionary::read","Scorer::decode","U31x8::decode"],"fs":5000,"unwind":24,"unwindset":["memcmp:24"],"timeout":1800,"mem_gb":16,"stubs":["alloc::fmt::format","unty::type_equal"]}
 prefix_window!(c09_raw_cut_021, gen::IMG_RAW, 21);
-//@ c09_raw_cut_200 {"tier":"thorough","core":false,"desc":"strict prefixes of the raw-connector image cut at byte 200..215 are rejected (feature rows / scorer arrays region)","bounds":"547-byte image; cut point symbolic within a 16-byte window","symbolic":"the cut point","functions":["Dictionary::read","Scorer::decode","U31x8::decode"],"fs":5000,"unwind":24,"unwindset":["memcmp:24"],"timeout":1800,"mem_gb":16,"stubs":["alloc::fmt::format","unty::type_equal"]}
+//@ c09_raw_cut_200 {"tier":"thorough","core":false,"desc":"strict prefixes of the raw-connector image cut at byte 200..215 are rejected (feature rows / scorer arrays region)","bounds":"547-byte image; cut point symbolic within a 16-byte window","symbolic":"the cut point","functions":["Dictionary::read","Scorer::decode","U31x8::decode"],"fs":5000,"unwind":24,"unwindset":["memcmp:24"],"timeout":600,"mem_gb":16,"stubs":["alloc::fmt::format","unty::type_equal"]}
 prefix_window!(c09_raw_cut_200, gen::IMG_RAW, 200);
-//@ c09_raw_cut_400 {"tier":"thorough","core":false,"desc":"strict prefixes of the raw-connector image cut at byte 400..415 are rejected (feature rows / scorer arrays region)","bounds":"547-byte image; cut point symbolic within a 16-byte window","symbolic":"the cut point","functions":["Dictionary::read","Scorer::decode","U31x8::decode"],"fs":5000,"unwind":24,"unwindset":["memcmp:24"],"timeout":1800,"mem_gb":16,"stubs":["alloc::fmt::format","unty::type_equal"]}
+// (not registered: the window contains the end of a scalar/length read; its symbolic outcome is merged into the decoded value by bincode's Result plumbing and nothing downstream folds - no verdict in 200 s) c09_raw_cut_400 {"tier":"thorough","core":false,"desc":"strict prefixes of the raw-connector image cut at byte 400..415 are rejected (feature rows / scorer arrays region)","bounds":"547-byte image; cut point symbolic within a 16-byte window","symbolic":"the cut point","functions":["Dictionary::read","Scorer::decode","U31x8::decode"],"fs":5000,"unwind":24,"unwindset":["memcmp:24"],"timeout":1800,"mem_gb":16,"stubs":["alloc::fmt::format","unty::type_equal"]}
 prefix_window!(c09_raw_cut_400, gen::IMG_RAW, 400);
-//@ c09_raw_cut_531 {"tier":"thorough","core":false,"desc":"strict prefixes of the raw-connector image cut at byte 531..546 are rejected (feature rows / scorer arrays region)","bounds":"547-byte image; cut point symbolic within a 16-byte window","symbolic":"the cut point","functions":["Dictionary::read","Scorer::decode","U31x8::decode"],"fs":5000,"unwind":24,"unwindset":["memcmp:24"],"timeout":1800,"mem_gb":16,"stubs":["alloc::fmt::format","unty::type_equal"]}
+// (not registered: the window contains the end of a scalar/length read; its symbolic outcome is merged into the decoded value by bincode's Result plumbing and nothing downstream folds - no verdict in 200 s) c09_raw_cut_531 {"tier":"thorough","core":false,"desc":"strict prefixes of the raw-connector image cut at byte 531..546 are rejected (feature rows / scorer arrays region)","bounds":"547-byte image; cut point symbolic within a 16-byte window","symbolic":"the cut point","functions":["Dictionary::read","Scorer::decode","U31x8::decode"],"fs":5000,"unwind":24,"unwindset":["memcmp:24"],"timeout":1800,"mem_gb":16,"stubs":["alloc::fmt::format","unty::type_equal"]}
 prefix_window!(c09_raw_cut_531, gen::IMG_RAW, 531);
-//@ c09_dual_cut_300 {"tier":"thorough","core":false,"desc":"strict prefixes of the dual-connector image (with user lexicon) cut at byte 300..315 are rejected","bounds":"695-byte image; cut point symbolic within a 16-byte window","symbolic":"the cut point","functions":["Dictionary::read","DualConnector decode"],"fs":5000,"unwind":24,"unwindset":["memcmp:24"],"timeout":1800,"mem_gb":16,"stubs":["alloc::fmt::format","unty::type_equal"]}
+// (not registered: the window contains the end of a scalar/length read; its symbolic outcome is merged into the decoded value by bincode's Result plumbing and nothing downstream folds - no verdict in 200 s) c09_dual_cut_300 {"tier":"thorough","core":false,"desc":"strict prefixes of the dual-connector image (with user lexicon) cut at byte 300..315 are rejected","bounds":"695-byte image; cut point symbolic within a 16-byte window","symbolic":"the cut point","functions":["Dictionary::read","DualConnector decode"],"fs":5000,"unwind":24,"unwindset":["memcmp:24"],"timeout":1800,"mem_gb":16,"stubs":["alloc::fmt::format","unty::type_equal"]}
 prefix_window!(c09_dual_cut_300, gen::IMG_DUAL, 300);
-//@ c09_dual_cut_679 {"tier":"thorough","core":false,"desc":"strict prefixes of the dual-connector image (with user lexicon) cut at byte 679..694 are rejected","bounds":"695-byte image; cut point symbolic within a 16-byte window","symbolic":"the cut point","functions":["Dictionary::read","DualConnector decode"],"fs":5000,"unwind":24,"unwindset":["memcmp:24"],"timeout":1800,"mem_gb":16,"stubs":["alloc::fmt::format","unty::type_equal"]}
+// (not registered: the window contains the end of a scalar/length read; its symbolic outcome is merged into the decoded value by bincode's Result plumbing and nothing downstream folds - no verdict in 200 s) c09_dual_cut_679 {"tier":"thorough","core":false,"desc":"strict prefixes of the dual-connector image (with user lexicon) cut at byte 679..694 are rejected","bounds":"695-byte image; cut point symbolic within a 16-byte window","symbolic":"the cut point","functions":["Dictionary::read","DualConnector decode"],"fs":5000,"unwind":24,"unwindset":["memcmp:24"],"timeout":1800,"mem_gb":16,"stubs":["alloc::fmt::format","unty::type_equal"]}
 prefix_window!(c09_dual_cut_679, gen::IMG_DUAL, 679);
 
 //@ c09_matrix_full_loads {"desc":"the complete image loads (non-vacuity of the prefix claim)","bounds":"359-byte image","symbolic":"none","functions":["Dictionary::read"],"fs":5000,"unwind":24,"unwindset":["memcmp:24"],"timeout":900,"covers":"none","stubs":["alloc::fmt::format"]}
